@@ -47,12 +47,38 @@ class Real:
         self.consoles = [Console(file=io.StringIO(), width=80, color_system=None, legacy_windows=False),
                          Console(file=io.StringIO(), width=7, force_terminal=True, color_system="truecolor", legacy_windows=False)]
         c0 = self.consoles[0]
+        # further console configurations a string can meet (a print must not raise on any of them)
+        more = [Console(file=io.StringIO(), width=1, color_system=None, legacy_windows=False),
+                Console(file=io.StringIO(), width=20, force_terminal=True, color_system="standard", no_color=True, legacy_windows=False),
+                Console(file=io.StringIO(), width=11, force_terminal=True, color_system="256", legacy_windows=False, tab_size=1),
+                Console(file=io.StringIO(), width=40, force_terminal=True, color_system="windows", legacy_windows=True),
+                Console(file=io.StringIO(), width=200, color_system=None, record=True, legacy_windows=False),
+                Console(file=io.StringIO(), width=30, color_system=None, markup=False, emoji=False, highlight=False, legacy_windows=False),
+                Console(file=io.StringIO(), width=9, force_terminal=True, color_system="truecolor", soft_wrap=True, legacy_windows=False)]
+        self.more = more
 
-        def prints(s, **kw):
+        def reset(c):
+            c.file.seek(0)
+            c.file.truncate()
+            if c.record:
+                c.export_text(clear=True)
+
+        def prints(*objs, **kw):
             for c in self.consoles:
-                c.print(s, **kw)
-                c.file.seek(0)
-                c.file.truncate()
+                c.print(*objs, **kw)
+                reset(c)
+
+        def on(i, f):
+            def run(s):
+                f(more[i], s)
+                reset(more[i])
+            return run
+
+        shared = AnsiDecoder()          # one long-lived decoder: what it decoded before must not make a later string fail
+
+        def decode_shared(s):
+            for line in s.splitlines() or [""]:
+                shared.decode_line(line)
 
         self.fn = dict(
             color=lambda s: Color.parse(s),
@@ -64,12 +90,44 @@ class Real:
             decode=lambda s: list(AnsiDecoder().decode(s)),
             text=lambda s: Text(s),
             print=lambda s: prints(s, markup=False))
+        # other public routes into the same parsers / printers; each is judged with the outcome set of its base entry point
+        PRINT_KW = [dict(justify="center"), dict(justify="right", overflow="ellipsis"), dict(justify="full"), dict(overflow="crop", no_wrap=True),
+                    dict(overflow="ignore", crop=False), dict(soft_wrap=True), dict(width=3), dict(style="red on blue"), dict(end=""),
+                    dict(highlight=False, emoji=False), dict(no_wrap=True, width=1)]
+        self.variants = dict(
+            color=[("Style(color=)", lambda s: Style(color=s)), ("Style(bgcolor=)", lambda s: Style(bgcolor=s)),
+                   ("parse twice", lambda s: (Color.parse(s), Color.parse(s)))],
+            style=[("normalize", lambda s: Style.normalize(s)), ("parse twice", lambda s: (Style.parse(s), Style.parse(s))),
+                   ("pick_first", lambda s: Style.pick_first(None, s))],
+            get=[("other console", lambda s: more[1].get_style(s))],
+            getd=[("default=Style", lambda s: c0.get_style(s, default=Style(bold=True)))],
+            markup=[("Text.from_markup", lambda s: Text.from_markup(s)), ("render emoji=False", lambda s: render(s, emoji=False)),
+                    ("render style=", lambda s: render(s, "bold")),
+                    ("from_markup opts", lambda s: Text.from_markup(s, emoji=False, justify="center", overflow="fold", style="on red")),
+                    ("render_str", lambda s: c0.render_str(s, markup=True))],
+            printm=[("print %s" % sorted(kw), (lambda kw: lambda s: prints(s, **kw))(kw)) for kw in PRINT_KW]
+                   + [("console %d" % i, on(i, lambda c, s: c.print(s, markup=True))) for i in range(len(more))]
+                   + [("log", lambda s: (c0.log(s), reset(c0))), ("rule", lambda s: (c0.rule(s), reset(c0))),
+                      ("two args", lambda s: prints(s, s, sep=" | "))],
+            decode=[("shared decoder", decode_shared), ("decode_line", lambda s: [AnsiDecoder().decode_line(l) for l in s.split("\n")]),
+                    ("decode+print", lambda s: [prints(t) for t in AnsiDecoder().decode(s)])],
+            text=[("Text style=", lambda s: Text(s, style="bold", justify="full", overflow="ellipsis", no_wrap=True, end=s[:1], tab_size=1)),
+                  ("append", lambda s: Text("x").append(s, "red")), ("assemble", lambda s: Text.assemble(s, (s, "bold"))),
+                  ("styled", lambda s: Text.styled(s, "italic")), ("Text + ops", lambda s: (lambda t: (t.expand_tabs(), t.split(), t.rstrip(), len(t), t.cell_len))(Text(s)))],
+            print=[("print %s" % sorted(kw), (lambda kw: lambda s: prints(s, markup=False, **kw))(kw)) for kw in PRINT_KW]
+                  + [("console %d" % i, on(i, lambda c, s: c.print(s, markup=False))) for i in range(len(more))]
+                  + [("print(Text)", lambda s: prints(Text(s))), ("out", lambda s: (c0.out(s), reset(c0))),
+                     ("log markup=False", lambda s: (c0.log(s, markup=False), reset(c0))),
+                     ("export", lambda s: (more[4].print(s, markup=False), more[4].export_html(clear=False), more[4].export_text(clear=True), reset(more[4])))])
 
-    def observe(self, entry, s):
-        """-> dict(out, isa, where, msg): the outcome class of one call (lexical facts only)"""
+    def observe(self, entry, s, variant=None):
+        """-> dict(out, isa, where, msg): the outcome class of one call (lexical facts only); variant: index into self.variants[entry]"""
         try:
             with _deadline(60):
-                self.fn[entry](s)
+                if variant is None:
+                    self.fn[entry](s)
+                else:
+                    self.variants[entry][variant][1](s)
             return dict(out="ok", isa=[], where="", msg="")
         except Exception as e:          # a crash inside Rich is data for TLC
             return describe(e, self.doc)
@@ -169,12 +227,13 @@ def _observe_chunk(chunk):
     R = _W.get("R")
     if R is None:
         R = _W["R"] = Real()
-    return [R.observe(e, s) for e, s in chunk]
+    return [R.observe(*x) for x in chunk]
 
 
 def observe_many(R, pairs):
+    """pairs: (entry, string) or (entry, string, variant index)"""
     if len(pairs) < 4000:
-        return [R.observe(e, s) for e, s in pairs]
+        return [R.observe(*x) for x in pairs]
     import multiprocessing as mp
     nproc = min(12, os.cpu_count() or 2)
     chunks = [pairs[i:i + 900] for i in range(0, len(pairs), 900)]
@@ -201,7 +260,14 @@ DIGITS = ("0123456789" "٠٣٩" "۴" "१९" "৩" "๓" "༣" "１９" "\U0001
           "²³¹⁰⁹₁" "①⑳" "½⅕" "ⅠⅫ〇" "௰፩〡三" "\U00010107\U0001f10a")
 TEMPLATES = ["rgb(%s,%s,%s)", "rgb(%s)", "color(%s)", "#%s", "\x1b[%sm", "\x1b[38;5;%sm", "\x1b[48;2;%s;%s;%sm", "\x1b[%s;%sm", "\x1b]8;;%s\x1b\\",
              "\x1b]%s\x1b\\", "[%s]x[/%s]", "[/%s]", "[%s]", "[link=%s]x[/link]", "\\[%s]", "\\\\[%s][/]", "on %s", "not %s", "link %s",
-             "%s on %s", "bold %s", ":%s:", "%s\n%s", "[%s=%s]", "[bold]%s[/]", "%s"]
+             "%s on %s", "bold %s", ":%s:", "%s\n%s", "[%s=%s]", "[bold]%s[/]", "%s",
+             # decoder: other CSI final bytes, unterminated / BEL-terminated / nested OSC, colon sub-parameters, truncated colour arguments
+             "\x1b[%s%s", "\x1b[%s", "\x1b%s", "\x1b]8;%s;%s\x07", "\x1b]8;;%s", "\x1b[38:2:%s:%s:%sm", "\x1b[38;2;%s;%sm", "\x1b[38;5m%s",
+             "\x1b[48;%sm", "\x1b[38;%s;%s;%s;%sm", "\x1b[1;%s;38;5;%s;4m%s\x1b[0m", "\x1b]8;id=%s;http://%s\x1b\\%s\x1b]8;;\x1b\\", "\r%s\x1b[2K%s\r\n",
+             # colours / styles / markup: signs, floats, per cent, nesting, closing by style, escapes before tags, emoji with tags
+             "rgb(-%s,%s,%s)", "rgb(%s.5,1,1)", "rgb(%s%%,1,1)", "color(-%s)", "#%s%s", "RGB(%s,%s,%s)", "not not %s", "link%s", "%s on", "%s link %s on %s",
+             "[%s][%s]x[/%s][/%s]", "[on %s]x[/on %s]", "[link]%s[/link]", "[link=%s][link=%s]x[/link][/link]", "\\\\\\[%s]", ":%s:[%s]:%s:[/]",
+             "[/%s][%s]", "[%s]\n[/%s]", "[[%s]]", "[%s", "%s]"]
 
 
 def rand_chunk(rng, toktable):
@@ -257,7 +323,12 @@ def rand_string(rng, toktable):
 
 
 # ---- (3) trees -------------------------------------------------------------------------------------------------
-STYLES = ["bold", "red on blue", "dim", "not bold", "none", "#ff0000", "color(9)", "italic underline", "on default", "link https://x.y"]
+# valid style definitions the way users write them: attributes and their aliases / negations, every colour notation, links, theme
+# names (resolved by Console.get_style), upper case, the empty definition
+STYLES = ["bold", "red on blue", "dim", "not bold", "none", "#ff0000", "color(9)", "italic underline", "on default", "link https://x.y",
+          "", "BOLD Red", "b i u s", "blink2 conceal reverse", "strike overline frame encircle underline2", "uu not i",
+          "rgb(1,2,3) on rgb(4,5,6)", "white on color(255)", "default on default", "not italic not bold not dim",
+          "bold red on #00ff00 link https://example.org/a?b=c", "repr.number", "rule.line", "table.header", "bright_red on grey0"]
 STYLE_OPTS = {"panel": ["style", "border_style"], "padding": ["style"], "align": ["style"], "rule": ["style"],
               "table": ["style", "border_style", "header_style", "footer_style", "title_style", "caption_style"]}
 
@@ -276,6 +347,17 @@ def stress(rng, t, G):
                 for col in n["cols"]:
                     if rng.random() < 0.4:
                         col["sty"] = {o: rng.choice(STYLES) for o in ("style", "header_style", "footer_style") if rng.random() < 0.5}
+        if k == "txt" and rng.random() < 0.25:
+            # every overflow / justify / no_wrap combination is a valid Text, wherever it sits
+            n.update(src="text", ov=rng.choice(["ignore", "crop", "ellipsis", "fold"]), jus=rng.choice(["none", "left", "center", "right", "full"]),
+                     nw=rng.random() < 0.5)
+        if k == "tree" and rng.random() < 0.3:
+            n["gs"] = rng.choice(STYLES)
+        if k in ("panel", "padding", "table", "columns") and rng.random() < 0.15:
+            # paddings larger than the terminal
+            n["pl"], n["pr"] = rng.choice([(0, 40), (40, 0), (250, 250), (7, 7)])
+            if k != "columns":
+                n["pt"], n["pb"] = rng.choice([(0, 0), (3, 0), (0, 3), (2, 2)])
         if k in ("panel", "align", "constrain", "columns", "table") and rng.random() < 0.35:
             n["w"] = rng.choice([1, 2, 3, 5, 9, 13, 30, 60, 250])
         if k == "table":
@@ -356,6 +438,25 @@ def boundary_trees(G):
             out.append(dict(k="bar", w=w, size=size, begin=b, end=e))
     out.append(dict(k="group", ch=[], fit=True))
     out.append(dict(k="group", ch=[], fit=False))
+    # every way of writing a style, on every option that takes one (one small renderable per built-in kind)
+    for st in STYLES:
+        p = dict(k="panel", c=txt("a"), pl=1, pr=1, pt=0, pb=0, w=0, ex=True, ta="center", box="ROUNDED", sty=dict(style=st, border_style=st))
+        G.set_text(p, "t", "ts", "title")
+        out.append(p)
+        out.append(dict(k="padding", c=txt("a"), pl=1, pr=1, pt=0, pb=0, ex=True, form=4, sty=dict(style=st)))
+        out.append(dict(k="align", c=txt("a"), w=0, al="center", pad=True, sty=dict(style=st)))
+        r = dict(k="rule", al="center", sty=dict(style=st))
+        G.set_text(r, "t", "ts", "title")
+        G.set_text(r, "─", "chs", "chars")
+        out.append(r)
+        c = col(None)
+        c["sty"] = dict(style=st, header_style=st, footer_style=st)
+        t = dict(base_table, cols=[c, col(None)], rows=[[txt("x"), txt("y")], [txt("x"), txt("y")]], sf=True,
+                 sty=dict(style=st, border_style=st, header_style=st, footer_style=st, title_style=st, caption_style=st, row_styles=[st, "none"], rows={"0": st}))
+        G.set_text(t, "t", "ts", "title")
+        G.set_text(t, "c", "cps", "caption")
+        out.append(t)
+        out.append(dict(k="tree", label=txt("x"), exp=True, gs=st, ch=[dict(k="tree", label=txt("y"), exp=True, gs="", ch=[])]))
     for s in ("", "\x00", "\t", "世", "́", "a" * 300, "\n\n"):
         for ov in ("none", "fold", "crop", "ellipsis"):
             t = txt(s)
@@ -444,14 +545,15 @@ def judge(chk, tables, recs, label):
 def parser_signature(entry, obs):
     """exception class + entry + raising frame (+ first words of the message for exceptions outside Rich's documented classes)"""
     sig = "undocumented %s entry=%s at=%s" % (obs["out"], entry, obs["where"])
-    return sig if obs["isa"] else sig + " msg=" + obs.get("mclass", "")
+    sig = sig if obs["isa"] else sig + " msg=" + obs.get("mclass", "")
+    return sig + (" via=" + obs["via"].split(" ")[0] if obs.get("via") else "")
 
 
 def ddmin_strings(chk, real_tables, R, open_cases):
     """open_cases: sig -> (entry, string).  Every round is ONE TLC batch of candidate reductions for all cases."""
     for _ in range(chk.pick(14, 40)):
         cands = []
-        for sig, (entry, s) in open_cases.items():
+        for sig, (entry, s, var) in open_cases.items():
             n = len(s)
             if n <= 1:
                 continue
@@ -469,18 +571,21 @@ def ddmin_strings(chk, real_tables, R, open_cases):
             for c in cs:
                 if c not in seen and len(c) < n:
                     seen.add(c)
-                    cands.append((sig, entry, c))
+                    cands.append((sig, entry, c, var))
         if not cands:
             break
-        obs = [R.observe(e, c) for _, e, c in cands]
-        recs = [dict(k="r", e=e, out=o["out"], isa=o["isa"]) for (_, e, _c), o in zip(cands, obs)]
+        obs = [R.observe(e, c, var) for _, e, c, var in cands]
+        for (_, e, _c, var), o in zip(cands, obs):
+            if var is not None:
+                o["via"] = R.variants[e][var][0]
+        recs = [dict(k="r", e=e, out=o["out"], isa=o["isa"]) for (_, e, _c, _v), o in zip(cands, obs)]
         verdicts = judge(chk, real_tables, recs, "M3-minimise")
         progress = False
         best = {}
-        for (sig, e, c), o, v in zip(cands, obs, verdicts):
+        for (sig, e, c, var), o, v in zip(cands, obs, verdicts):
             if not v.startswith("ok") and parser_signature(e, o) == sig:
                 if sig not in best or len(c) < len(best[sig][1]):
-                    best[sig] = (e, c)
+                    best[sig] = (e, c, var)
         for sig, ec in best.items():
             open_cases[sig] = ec
             progress = True
@@ -510,7 +615,11 @@ def run(chk: Check):
     from drivers import layout_gen as G
     R = Real()
     tables = dict(names=[[ord(c) for c in n] for n in R.names], theme=[[ord(c) for c in n] for n in R.theme])
-    chk.rule = ("(1) every token sequence TLC enumerates over the per-entry alphabets of specs/Parsers.tla (36 fragments: rgb( , ) digits incl. "
+    chk.rule = ("(0) every string of part (2) also goes through one of the other public routes to the same parser / printer (Real.variants: "
+                "Style(color=), Style.normalize, Text.from_markup, render(emoji=False), print with justify / overflow / no_wrap / soft_wrap / width / "
+                "style / end options, log, rule, out, consoles of width 1, NO_COLOR, standard / 256 / legacy-Windows colour, recording + export, "
+                "a long-lived AnsiDecoder, decode_line, Text.assemble / append / styled), judged with the outcome set of the base entry point; "
+                "(1) every token sequence TLC enumerates over the per-entry alphabets of specs/Parsers.tla (45 fragments; the first 36: rgb( , ) digits incl. "
                 "ARABIC-INDIC THREE and SUPERSCRIPT TWO, # hex color( names default on not link bold b none [ ] / \\ = ESC[ ; m space newline x 38 "
                 "ESC]8; ST; the empty sequence is the empty fragment) up to the bounds in `bounds` (also inside the contexts rgb(..), "
                 "rgb(1,1,..), [..], [bold].., ESC[..m, ESC[38;..m, ...), fed to Color.parse / Style.parse / Console.get_style (with and "
@@ -583,13 +692,23 @@ def run(chk: Check):
 def random_part(chk, R, tables, toktable):
     nstr = chk.pick(2500, 40000)
     strings = [rand_string(chk.rng, toktable) for _ in range(nstr)]
-    pairs = [(entry, s) for s, _shape in strings for entry in ENTRY_ORDER]
+    # every string goes to every entry point twice: the plain call, and one of the other public routes to the same parser / printer
+    # (R.variants: other constructors, print options, console configurations, a long-lived decoder, ...)
+    pairs, shapes = [], []
+    for s, shape in strings:
+        for entry in ENTRY_ORDER:
+            pairs.append((entry, s, None))
+            pairs.append((entry, s, chk.rng.randrange(len(R.variants[entry]))))
+            shapes += [shape, shape]
+    chk.notes["entry_variants"] = {e: [n for n, _f in R.variants[e]] for e in ENTRY_ORDER}
     obs = observe_many(R, pairs)
     recs, meta = [], []
     hist = {}
-    for (entry, s), o, shape in zip(pairs, obs, (sh for _s, sh in strings for _ in ENTRY_ORDER)):
+    for (entry, s, var), o, shape in zip(pairs, obs, shapes):
+        if var is not None:
+            o["via"] = R.variants[entry][var][0]
         recs.append(dict(k="r", e=entry, out=o["out"], isa=o["isa"]))
-        meta.append((entry, s, shape, o))
+        meta.append((entry, s, shape, o, var))
         h = hist.setdefault(entry, {})
         h[o["out"]] = h.get(o["out"], 0) + 1
         chk.case("r:%s:%s" % (entry, s if len(s) < 80 else hashlib.sha1(s.encode("utf8", "surrogatepass")).hexdigest()), bool(s))
@@ -599,23 +718,24 @@ def random_part(chk, R, tables, toktable):
     verdicts = judge(chk, tables, recs, "M3-random")
     chk.mark("judge-random")
     open_cases, count = {}, {}
-    for (entry, s, shape, o), v in zip(meta, verdicts):
+    for (entry, s, shape, o, var), v in zip(meta, verdicts):
         if v.startswith("ok"):
             continue
         sig = parser_signature(entry, o)
         count[sig] = count.get(sig, 0) + 1
         if sig not in open_cases or len(s) < len(open_cases[sig][1]):
-            open_cases[sig] = (entry, s)
+            open_cases[sig] = (entry, s, var)
     if open_cases:
         open_cases = ddmin_strings(chk, tables, R, open_cases)
-        for sig, (entry, s) in sorted(open_cases.items()):
-            o = R.observe(entry, s)
+        for sig, (entry, s, var) in sorted(open_cases.items()):
+            o = R.observe(entry, s, var)
             for _ in range(count[sig]):
                 shown = repr(s) if len(s) <= 80 else "%r...(%d characters)" % (s[:40], len(s))
-                chk.reject(sig, "undocumented %s from %s; minimal random witness %s(%s) [shape %s] -> %s" % (o["out"], entry, entry, shown, shape_of(s), o["msg"]),
-                           dict(kind="string", entry=entry, cps=[ord(c) for c in s]))
+                chk.reject(sig, "undocumented %s from %s%s; minimal random witness %s(%s) [shape %s] -> %s" % (
+                    o["out"], entry, (" via " + R.variants[entry][var][0]) if var is not None else "", entry, shown, shape_of(s), o["msg"]),
+                           dict(kind="string", entry=entry, variant=var, cps=[ord(c) for c in s]))
     chk.mark("minimise-random")
-    chk.sample(dict(entry=meta[-1][0], random_string=meta[-1][1][:60], shape=meta[-1][2], outcome=meta[-1][3]["out"]))
+    chk.sample(dict(entry=meta[-1][0], random_string=meta[-1][1][:60], shape=meta[-1][2], outcome=meta[-1][3]["out"], via=meta[-1][3].get("via", "")))
 
 
 
@@ -701,7 +821,9 @@ def replay(chk, R, tables, G):
     if case["kind"] == "tree":
         return tree_part(chk, tables, G, [case["tree"]], widths=case["widths"])
     s = "".join(map(chr, case["cps"]))
-    o = R.observe(case["entry"], s)
+    o = R.observe(case["entry"], s, case.get("variant"))
+    if case.get("variant") is not None:
+        o["via"] = R.variants[case["entry"]][case["variant"]][0]
     rec = dict(k="p", e=case["entry"], t=case["tokens"], out=o["out"], isa=o["isa"]) if case["kind"] == "tokens" else \
         dict(k="r", e=case["entry"], out=o["out"], isa=o["isa"])
     v = judge(chk, tables, [rec], "M3-replay")[0]
